@@ -392,6 +392,7 @@ def rule_r3(ctx: Ctx) -> None:
         "/w/ns/A.1.0.dsdl", "/w/ns/B.1.0.uavcan", "/w/ns/sub/deep/er/C.2.3.dsdl", "/w/ns/sub/D.1.0.dsdl", "/w/ns/sub/deep/L.1.0.uavcan", "/w/ns/readme.txt", "/w/ns/sub/E.1.0.dsdl.bak",
         "/w/other/X.1.0.dsdl", "/w/nsx/Y.1.0.dsdl", "/w/ns2/Z.1.0.dsdl",
         "/elsewhere/ns/Q.1.0.dsdl", "/elsewhere/ns/sub/R.1.0.dsdl",  # a lookup directory named like the root (name collisions are allowed by default)
+        "/w/ns/B.1.0.dsdl", "/w/ns/sub/77.D.1.0.dsdl",  # files that spell the name and version of another file of the same directory: one composite per *file*
     ]
     saved = list(APath.FS)
     APath.FS = list(files)
@@ -408,7 +409,7 @@ def rule_r3(ctx: Ctx) -> None:
         except (Raised, Unfoldable) as ex:
             raise AnalysisError("%s: cannot evaluate over the abstract file system: %s" % (cons.short, ex))
         paths = sorted(str(d.file_path if hasattr(d, "file_path") else d._file_path) for d in got)
-        want = sorted(["/w/ns/A.1.0.dsdl", "/w/ns/B.1.0.uavcan", "/w/ns/sub/deep/er/C.2.3.dsdl", "/w/ns/sub/D.1.0.dsdl", "/w/ns/sub/deep/L.1.0.uavcan", "/w/ns2/Z.1.0.dsdl"])
+        want = sorted(["/w/ns/A.1.0.dsdl", "/w/ns/B.1.0.uavcan", "/w/ns/B.1.0.dsdl", "/w/ns/sub/deep/er/C.2.3.dsdl", "/w/ns/sub/D.1.0.dsdl", "/w/ns/sub/77.D.1.0.dsdl", "/w/ns/sub/deep/L.1.0.uavcan", "/w/ns2/Z.1.0.dsdl"])
         ctx.count()
         ctx.check(paths == want, cons.short, "lists %s" % paths, "every definition file (both suffixes) at any depth under each given root is listed - and nothing else", cons.where(), {"expected": want})
         # read_namespace: the targets are the definitions under the root, the result is the direct part of what was read
@@ -633,6 +634,46 @@ def rule_r6(ctx: Ctx) -> None:
     ctx.check(good, caller.short, "checks and returns root + lookup directories: %s" % sorted(str(x) for x in (checked[0][0] if checked else [])), "the merged, resolved directory list is what gets checked", caller.where(), nontrivial=False)
 
 
+def rule_r7_requested_files(ctx: Ctx) -> None:
+    """what read_files makes of its file arguments, over an abstract file system: one definition object per requested file -
+    the objects are built by their own constructor and the containers of the evaluated program compare / hash them by the
+    class's own __eq__ / __hash__ (name and version), so a container that identifies files by that drops a requested file"""
+    from ..absint import APath, Raised, call_fn
+    from ..fold import Unfoldable
+    from . import reader_common as R
+
+    ctx.rule("C10.R7", "read_files turns the requested files into exactly one definition per file (a file named twice counts once): no requested file is dropped because another one spells the same name and version", min_instances=2)
+    cons = ctx.func("_namespace._construct_dsdl_definitions_from_files")
+    mod = cons.module
+    files = ["/w/ns/A.1.0.dsdl", "/w/ns/sub/Foo.1.0.dsdl", "/w/ns/sub/7509.Foo.1.0.dsdl", "/w/ns/sub/Foo.1.0.uavcan", "/w/ns/sub/Foo.1.1.dsdl", "/w/ns2/Z.1.0.dsdl"]
+    cases = {
+        "distinct names": ["/w/ns/A.1.0.dsdl", "/w/ns/sub/Foo.1.1.dsdl", "/w/ns2/Z.1.0.dsdl"],
+        "one file named twice": ["/w/ns/A.1.0.dsdl", "/w/ns/sub/Foo.1.1.dsdl", "/w/ns/A.1.0.dsdl"],
+        "two files spelling ns.sub.Foo.1.0 (port-ID prefix)": ["/w/ns/sub/Foo.1.0.dsdl", "/w/ns/sub/7509.Foo.1.0.dsdl", "/w/ns/A.1.0.dsdl"],
+        "two files spelling ns.sub.Foo.1.0 (legacy suffix), other order": ["/w/ns/sub/Foo.1.0.uavcan", "/w/ns/sub/Foo.1.0.dsdl"],
+    }
+    saved = list(APath.FS)
+    APath.FS = list(files)
+    try:
+        for label, req in cases.items():
+            hook = R._hook(ctx, mod, [], record=[], results={"dsdl_file_sort": lambda xs: list(xs), "file_sort": lambda xs: list(xs)})
+            try:
+                got = call_fn(ctx, cons, [[APath(p_) for p_ in req], [APath("/w/ns"), APath("/w/ns2")]], hook=hook, keep=tuple(mod.functions))
+                paths: Any = sorted(str(d.file_path if hasattr(d, "file_path") else d._file_path) for d in got)
+            except Raised as r:
+                paths = "raise " + r.cls_name
+            except Unfoldable as ex:
+                raise AnalysisError("%s: cannot evaluate over the abstract file system: %s" % (cons.short, ex))
+            ctx.count()
+            want = sorted(set(req))
+            # rejecting files that cannot be told apart is an answer too; silently reading one of them is not
+            k = next((k for k in ctx.repo.all_classes().values() if isinstance(paths, str) and k.name == paths[6:]), None)
+            rejected = k is not None and ctx.repo.is_subclass(k, ctx.cls("_error.InvalidDefinitionError")) and "spelling" in label
+            ctx.check(paths == want or rejected, cons.short, label, "every requested file becomes a target (or the request is rejected): none is dropped in favour of another file of the same name and version", cons.where(), {"requested": req, "definitions constructed": paths})
+    finally:
+        APath.FS = saved
+
+
 def run(ctx: Ctx) -> None:
     ctx.attempt(rule_r1, ctx)
     ctx.attempt(rule_r2, ctx)
@@ -640,6 +681,7 @@ def run(ctx: Ctx) -> None:
     ctx.attempt(rule_r4, ctx)
     ctx.attempt(rule_r5, ctx)
     ctx.attempt(rule_r6, ctx)
+    ctx.attempt(rule_r7_requested_files, ctx)
     ctx.assume("dict iteration order is insertion order (language guarantee), so dicts filled in a deterministic order are deterministic")
     ctx.assume("which of several simultaneous directory faults is reported first may depend on set order; the rejection itself does not")
     ctx.undecided("read_files == read_namespace type equality; case-insensitive file systems; symlink semantics of the OS; tie order of colliding (same name+version) lookup definitions")
